@@ -6,6 +6,19 @@ env = dict(os.environ, GOFLAGS='-mod=mod', GOPROXY='off', GOSUMDB='off', GOTOOLC
 env.pop('GOWORK', None)
 prop = sys.argv[1] if len(sys.argv) > 1 else 'all'
 variants = json.load(open(os.environ.get('UAVERIF_VARIANTS') or os.path.join(here, 'variants.json')))
+if not os.environ.get('UAVERIF_VARIANTS'):
+    import glob
+    # the independently seeded breaking changes: each must be reported by the rules recorded in its meta.json
+    for mf in sorted(glob.glob(os.path.join(root, 'seeded', '*', 'meta.json'))):
+        m = json.load(open(mf))
+        rules = m['checked']['caught_by']
+        props = sorted(set(r.split('.')[0] for r in rules))
+        variants.append({'id': 'seed-' + m['id'], 'kind': 'mutant', 'props': props, 'expect_all': rules,
+                         'patch': os.path.join(os.path.dirname(mf), 'patch.diff'), 'edits': []})
+    # the behaviour-preserving refactorings: each must stay silent for the property it was written for
+    for pf in sorted(glob.glob(os.path.join(root, 'benign', '*', 'refactor*.diff'))):
+        pid = os.path.basename(os.path.dirname(pf))
+        variants.append({'id': 'benign-' + pid + '-' + os.path.basename(pf)[:-5], 'kind': 'benign', 'props': [pid], 'patch': pf, 'edits': []})
 
 def run(v):
     d = tempfile.mkdtemp(prefix='uaverif-st-')
@@ -16,6 +29,10 @@ def run(v):
         diff = subprocess.run(['git', '-C', '/repo', 'diff', 'HEAD'], capture_output=True).stdout
         if diff.strip():
             subprocess.run(['git', '-C', d, 'apply', '--whitespace=nowarn'], input=diff, check=True)
+        if v.get('patch'):
+            a = subprocess.run(['git', '-C', d, 'apply', '--whitespace=nowarn', v['patch']], capture_output=True, text=True)
+            if a.returncode != 0:
+                return v, 'STALE', 'patch does not apply to the tree under analysis'
         for e in v['edits']:
             p = os.path.join(d, e['file'])
             s = open(p).read()
@@ -31,6 +48,11 @@ def run(v):
         viol = [l for l in out.splitlines() if l.startswith('  C') ]
         has = 'VIOLATION' in out
         if v['kind'] == 'mutant':
+            if 'expect_all' in v:
+                missing = [r for r in v['expect_all'] if not any((' ' + r + ' ') in (l + ' ') for l in viol)]
+                if has and not missing:
+                    return v, 'KILLED', ''
+                return v, 'SURVIVED', 'not reported: ' + ' '.join(missing)
             if has and any(v['expect'] in l for l in viol):
                 return v, 'KILLED', ''
             return v, 'SURVIVED', (' | '.join(viol)[:300] or 'no violation reported')
